@@ -19,8 +19,11 @@ def unread_selection(d, frame):
     """does the description contain the table subscripted by something the reader did not turn into a selection record?
     (then the reader knows nothing about the cell: an analysis error, not a verdict)"""
     if isinstance(d, tuple):
-        if d and d[0] in ("call", "expr", "name") and len(d) > 1 and isinstance(d[1], str) and (frame + "[") in d[1].replace(" ", ""):
-            return True
+        if d and d[0] in ("call", "expr", "name") and len(d) > 1 and isinstance(d[1], str):
+            import re
+            # the table subscripted by a bare name: a predicate held in a variable that the reader could not turn into a record
+            if re.search(r"\b%s\[[A-Za-z_][A-Za-z_0-9]*\]" % re.escape(frame), d[1].replace(" ", "")):
+                return True
         return any(unread_selection(x, frame) for x in d[1:])
     return False
 
